@@ -577,6 +577,39 @@ struct ViewDriver : DriverBase<ViewDriver> {
         if (op == "chrono_day_month") {
             unsigned const v = bad ? static_cast<unsigned>(beyond(255, st.flt, 0xFFFFFFFFULL)) : static_cast<unsigned>(st.k[0] % 255);
             ctx.log.kv("v", v);
+            if (!bad && st.k[2] % 3 == 0) {
+                // arithmetic on a day / month object: ++, --, +=, -= document no precondition (the counters wrap like
+                // the unsigned char they are / modulo 12): a walk across the ends of the range must never reach the handler
+                int const walk = 2 + static_cast<int>(st.k[1] % 6);
+                unsigned last  = 0;
+                call(-1, false, false, [&] {
+                    if (st.k[1] % 2 == 0) {
+                        etl::chrono::day d{v};
+                        for (int i = 0; i < walk; ++i) {
+                            switch ((st.v[i % 4] + i) % 4) {
+                            case 0: ++d; break;
+                            case 1: d++; break;
+                            case 2: d += etl::chrono::days{3}; break;
+                            default: --d; break;
+                            }
+                        }
+                        last = static_cast<unsigned>(d);
+                    } else {
+                        etl::chrono::month m{1 + v % 12};
+                        for (int i = 0; i < walk; ++i) {
+                            switch ((st.v[i % 4] + i) % 4) {
+                            case 0: ++m; break;
+                            case 1: m++; break;
+                            case 2: m += etl::chrono::months{5}; break;
+                            default: --m; break;
+                            }
+                        }
+                        last = static_cast<unsigned>(m);
+                    }
+                });
+                ctx.log.kv("last", last);
+                return;
+            }
             unsigned got = 0;
             bool ok      = call(-1, bad, false, [&] {
                 if (st.k[1] % 2 == 0) {
